@@ -15,6 +15,8 @@ GenVerdict(o) ==
   THEN IF /\ "Dev_GeneratedIdentifierCollision" \in KnownDeviations /\ o.gen = "ok" /\ o.build = "fail"
           /\ S(o.names) \cap CollisionWitness(o.scope) # {}
        THEN "known=Dev_GeneratedIdentifierCollision"
+       ELSE IF o.gen = "ok" /\ o.build = "fail" /\ ShapeWitness(o.shapeName) \cap KnownDeviations # {}
+       THEN "known=" \o (CHOOSE d \in ShapeWitness(o.shapeName) \cap KnownDeviations : TRUE)
        ELSE "viol-" \o o.gen \o "-" \o o.build
   ELSE IF o.gen = "ok" /\ o.flagsKnown /\ S(o.files) # Files(S(o.set), o.shape) THEN "drift"
   ELSE "ok"
